@@ -271,6 +271,10 @@ func runC17(p *core.Program, r *core.Report) {
 
 	// ---------- R17.4 / R17.5
 	checkMainCFG(p, r)
+	if d, retStatus := cliDriver(p); d != nil && cli.charGen != nil && cli.wlGen != nil {
+		checkCLIGuards(p, r, d, retStatus, inits)
+		checkCLIHelperGuards(p, r)
+	}
 }
 
 // constSeparatorFactory: f(value) returns a closure returning (value, 0).
